@@ -339,6 +339,32 @@ func c10Ops(c *ev.Ctx) []c10Op {
 			return fmt.Sprintf("%dx%d %+v", cfg.Width, cfg.Height, *ft)
 		})
 	}
+	// error paths next to good decodes: a lossy picture whose VP8 data is fine but whose ALPH chunk is rejected, cut
+	// streams; and wide lossy+alpha pictures (> 2048 columns: the upsampler leaves its on-stack scratch)
+	decOp := func(name string, d []byte) {
+		add("dec/"+name, func() string {
+			m, err := decode(d)
+			if err != nil {
+				return errDigest(err)
+			}
+			return imgDigest(m)
+		})
+	}
+	for k := 0; k < 2; k++ {
+		wide, _ := encode(img.Gen(r, pickS(r, "photo", "tiles"), pickS(r, "gradient", "noise"), 2100+200*k+r.Intn(90), 33+r.Intn(30)), mkopt(func(o *webp.EncoderOptions) { o.Method = 1 }))
+		decOp(fmt.Sprintf("wide-lossy+alpha/%d", k), wide)
+		la, _ := encode(img.Gen(r, "photo", "gradient", 40+r.Intn(40), 40+r.Intn(40)), mkopt(func(o *webp.EncoderOptions) {}))
+		if ch := riffChunks(la); ch["ALPH"] != nil && ch["VP8 "] != nil && ch["VP8X"] != nil {
+			bad := append([]byte{}, ch["ALPH"]...)
+			if k == 0 {
+				bad[0] = bad[0]&^3 | 3 // unknown alpha compression method
+			} else {
+				bad = bad[:1+len(bad)/3] // alpha data ends early
+			}
+			decOp(fmt.Sprintf("bad-alph/%d", k), riffWrap(chunk("VP8X", ch["VP8X"]), chunk("ALPH", bad), chunk("VP8 ", ch["VP8 "])))
+			decOp(fmt.Sprintf("cut-vp8/%d", k), riffWrap(chunk("VP8X", ch["VP8X"]), chunk("ALPH", ch["ALPH"]), chunk("VP8 ", ch["VP8 "][:len(ch["VP8 "])*(1+k)/3])))
+		}
+	}
 	anims := animCorpus(r, 4, 40)
 	for _, f := range anims {
 		d := f.Data
